@@ -264,16 +264,30 @@ def _k4(ctx):
     ctx.floor(R, 8)
 
 
+def _k6(ctx):
+    R = "C07-K6"
+    ctx.doc(R, "the lambdify cache key keeps the ORDER of the symbol list: list arguments are frozen with tuple(), never with set / frozenset / sorted (the compiled function takes its arguments positionally)")
+    fi = ctx.func(PAR, "_lambdify_type_check", R)
+    defs = [v for st in fi.stmts() for t, v, _ in assigned_targets(st) if isinstance(t, ast.Name) and t.id in ("cache_args", "cache_key")]
+    ctx.require(len(defs) >= 2, R, "cache key construction")
+    bad = [c for d in defs for c in ast.walk(d) if isinstance(c, ast.Call) and call_name(c) in ("frozenset", "set", "sorted", "fzs", "oset")]
+    ctx.check(not bad, R, fi, bad[0] if bad else defs[0], f"`{norm(bad[0]) if bad else ''}` makes the key independent of the order of the symbols: two calls with the same symbols in another order share one compiled function, "
+              "whose positional arguments then receive the wrong columns", "list arguments frozen with tuple() (order kept)")
+    ctx.floor(R, 1)
+
+
 def check(ctx):
     _k1(ctx)
     _k2(ctx)
     _k3(ctx)
     _k4(ctx)
+    _k6(ctx)
     from . import c03
     c03._v8(ctx, "C07-K5")  # a memory wrongly left untracked has no usage formula at all: same sibling-agreement rule as C03-V8
 
 
 VARIANTS = [
+    {"kind": "F", "name": "lambdify-key-forgets-symbol-order", "rule": "C07-K6", "edits": [(PAR, "        cache_args = tuple(tuple(a) if isinstance(a, list) else a for a in args)", "        cache_args = tuple(frozenset(a) if isinstance(a, list) else a for a in args)")]},
     {"kind": "F", "name": "rational-converted-as-integer", "rule": "C07-K4", "edits": [(MTS, "        elif t is se.Integer:\n            r = sympy.Integer(int(v))\n        elif t is se.Rational:\n            r = sympy.Rational(int(v.p), int(v.q))\n", "        elif t is se.Integer or t is se.Rational:\n            r = sympy.Integer(int(v))\n")]},
     {"kind": "F", "name": "min-converted-as-max", "rule": "C07-K4", "edits": [(MTS, "            cls = sympy.Max if t is se.Max else sympy.Min", "            cls = sympy.Max")]},
     {"kind": "F", "name": "pow-drops-exponent", "rule": "C07-K4", "edits": [(MTS, "            r = sympy.Pow(*[_to_sp(a) for a in v.args])", "            r = sympy.Pow(_to_sp(v.args[0]), 1)")]},
